@@ -12,7 +12,10 @@ import (
 
 	"github.com/DataDog/datadog-traceroute/common"
 
+	"strings"
+
 	"verif/props/c03"
+	"verif/props/c05"
 	"verif/props/core"
 	"verif/props/proto"
 	"verif/shim/vtime"
@@ -357,6 +360,15 @@ func genWire(tier string) []proto.Item {
 				}
 				items = append(items, proto.Item{Scn: s, Class: fmt.Sprintf("wire/%s/r%d-%d/latency-%s", v, r[0], r[1], lat)})
 			}
+		}
+	}
+	// SACK probes overtaking each other / lost on the way to the target around the 2^32 wrap: which TTL a multi-block
+	// acknowledgement is credited to must not depend on the connection's initial sequence number or on the schedule
+	for _, it := range c05.ForwardReorder(tier, 700, 71) {
+		if strings.Contains(it.Class, "middle-probe-lost") {
+			it.Class = "wire/" + it.Class
+			it.Scn.Bound = 1
+			items = append(items, it)
 		}
 	}
 	// a destination reply overrides a non-destination one for the same TTL: through the real drivers, on every schedule
